@@ -17,6 +17,9 @@ pub struct Violation {
     pub what: String,
     pub run: u64,
     pub replay: Json,
+    /// The unminimised document (complete history of the run), used when the minimised one does not
+    /// reproduce in a fresh process (a failure that depends on earlier calls).
+    pub replay_full: Option<Json>,
 }
 
 /// Counters and distinct-value sets, merged commutatively across workers.
@@ -171,7 +174,25 @@ pub fn report_violations(property: &str, seed: u64, violations: &mut Vec<Violati
             eprintln!("HARNESS-ERROR: cannot write replay {}: {}", path.display(), e);
             std::process::exit(2);
         }
-        println!("  {} [{}] {}", property, v.invariant, v.what);
+        // the minimised file must fail the same way in a fresh process; a failure that depends on
+        // earlier calls (state kept by the code under test) needs the complete history instead
+        let mut note = "";
+        if reported <= 4 && !reproduces_in_fresh_process(&path) {
+            note = "  (the minimised replay does not fail in a fresh process and no fuller history is available)";
+            if let Some(full) = &v.replay_full {
+                let mut doc = full.clone();
+                doc.put("key", Json::s(&v.key));
+                doc.put("what", Json::s(&v.what));
+                doc.put("note", Json::s("unminimised: the failure depends on earlier calls in the same run; this file replays the complete history of that run"));
+                let _ = std::fs::write(&path, doc.pretty());
+                note = if reproduces_in_fresh_process(&path) {
+                    "  (history-dependent: the replay file carries the complete history of the run, unminimised)"
+                } else {
+                    "  (neither the minimised replay nor the complete history of the run fails in a fresh process: the failure depends on state from earlier runs of the same worker)"
+                };
+            }
+        }
+        println!("  {} [{}] {}{}", property, v.invariant, v.what, note);
         println!("  key={}", v.key);
         println!("VIOLATION property={} replay={}", property, path.display());
     }
@@ -225,5 +246,21 @@ pub fn inflight_note(doc: impl FnOnce() -> Json) {
     let path = PATH.get_or_init(|| std::env::var("VERIF_INFLIGHT").ok().filter(|p| !p.is_empty()));
     if let Some(p) = path {
         let _ = std::fs::write(p, doc().pretty());
+    }
+}
+
+fn reproduces_in_fresh_process(path: &std::path::Path) -> bool {
+    let exe = match std::env::current_exe() {
+        Ok(e) => e,
+        Err(_) => return true,
+    };
+    match std::process::Command::new(exe).arg("replay").arg(path).env_remove("VERIF_INFLIGHT").output() {
+        Ok(out) => match out.status.code() {
+            Some(1) => true,
+            Some(0) => false,
+            // killed by a signal or died otherwise: the death is the reproduction
+            _ => true,
+        },
+        Err(_) => true,
     }
 }
